@@ -4,6 +4,6 @@ mkdir -p /verif/build/seedlog
 for spec in "$@"; do
   set -- $spec
   s=$1; shift
-  /verif/tools/seedtest.sh /verif/seeded/$s "$@" > /verif/build/seedlog/$s.log 2>&1
+  VERIF_JOBS=${SEED_JOBS:-6} nice -n 10 /verif/tools/seedtest.sh /verif/seeded/$s "$@" > /verif/build/seedlog/$s.log 2>&1
   echo "== $s: $(grep -E '^check|^tests|^demo|PATCH' /verif/build/seedlog/$s.log | tr '\n' ';')"
 done
